@@ -10,7 +10,9 @@ Proof.
   - intros H. exists l. split; [exact H|apply Nat.eqb_refl].
 Qed.
 Lemma mem_false l ls : mem l ls = false <-> ~ In l ls.
-Proof. rewrite <- mem_In. destruct (mem l ls); split; intros; try congruence; try tauto. exfalso; auto. Qed.
+Proof.
+  rewrite <- mem_In. destruct (mem l ls); split; intros H; try congruence; try reflexivity.
+Qed.
 
 Lemma upd_other s l v l' : l' <> l -> upd s l v l' = s l'.
 Proof. intros H. unfold upd. apply Nat.eqb_neq in H. rewrite H. reflexivity. Qed.
